@@ -30,7 +30,7 @@ KANI_FLAGS = [
 # quick tier: number of harnesses per property (stratified sample chosen with VERIF_SEED)
 QUICK_N = {"C01": 20, "C04": 12, "C05": 12, "C08": 6, "C09": 12, "C10": 16, "C12": 8, "C13": 10, "C14": 8,
            "C15": 12, "C16": 40, "C17": 40, "C19": 6, "C20": 30, "C02": 6}
-TIMEOUT = {"quick": 300, "thorough": 900}
+TIMEOUT = {"quick": int(os.environ.get("VERIF_QUICK_CAP", "300")), "thorough": 900}
 NATIVE_TIMEOUT = 300
 
 ENV = dict(os.environ)
@@ -346,6 +346,24 @@ def main():
         return 2
     res, tools = parse_results(out_json)
 
+    # A harness that hit the cap while 14 CBMC processes shared the machine is decided again with few
+    # competitors and the thorough cap before it is called inconclusive (a slower host must not turn a
+    # harness that is decidable into exit 2; a timeout is still never counted as a pass).
+    retried = []
+    if tier == "quick":
+        slow = [hn for hn in byname if res.get(hn) and res[hn]["exit_status"] == "timeout"]
+        if 0 < len(slow) <= 6:
+            out_retry = os.path.join(run_dir, "kani_retry.json")
+            run_kani(crate, target, slow, min(len(slow), 4), TIMEOUT["thorough"], log, out_retry)
+            if os.path.exists(out_retry):
+                again, _ = parse_results(out_retry)
+                for hn in slow:
+                    if again.get(hn):
+                        res[hn] = again[hn]
+                        retried.append(hn)
+            if retried:
+                print("RETRIED after quick-cap timeout (cap %ds, <=4 parallel): %s" % (TIMEOUT["thorough"], ", ".join(retried)))
+
     inconclusive, known_hits, candidates, passed, solver_only, unreplayed = [], [], [], [], [], []
     solver_s = symex_s = 0.0
     n_checks = 0
@@ -512,6 +530,7 @@ def main():
         "no_oracle": meta.get("no_oracle"),
         "outside_item_free_set": meta.get("outside_item_free_set"),
         "inconclusive": [{"harness": h, "why": w} for h, w in inconclusive],
+        "retried_after_quick_cap": retried,
         "known_findings_hit": sorted({"%s: %s" % (k["id"], c["description"]) for _, c, k in known_hits}),
         "violations": [{"harness": v[0], "check": v[1], "replay": v[2], "dev": v[3], "release": v[4]} for v in violations],
         "counterexamples_not_replayed": [{"harness": h, "checks": w} for h, w in unreplayed],
